@@ -80,8 +80,22 @@ TrObserve ==
                                                    /\ \A p \in Live(G.rs[n]) : ToSet(Ev.routes[n][p]) = AllowSet(G.rs[n], p),
            <<"Group.Routes()", Ev.routes>>)
   /\ Check("C13", \A n \in {"r1", "r2", "r3", "r4", "zz"} : (n \in DOMAIN Ev.found) = InGroup(G, n), <<"Group.Router(name)", Ev.found, G.order>>)
+\* the bundled recovery options: the panic is contained, the configured status is sent, the io.Writer / logger variants
+\* report something, and the next request is served normally
+TrRecHelper ==
+  /\ Ev.ev = "rechelper" /\ UNCHANGED G
+  /\ LET fired == \/ ("h:route" \in DOMAIN Ev.faults /\ Ev.method \in {"GET", "HEAD"} /\ Ev.path = "/x")
+                  \/ ("mw:m" \in DOMAIN Ev.faults /\ Ev.path = "/x")
+                  \/ ("h:404" \in DOMAIN Ev.faults /\ Ev.path # "/x")
+                  \/ ("h:405" \in DOMAIN Ev.faults /\ Ev.path = "/x" /\ Ev.method \notin {"GET", "HEAD", "OPTIONS"})
+                  \/ ("h:opt" \in DOMAIN Ev.faults /\ Ev.path = "/x" /\ Ev.method = "OPTIONS")
+     IN /\ Check("C16", Ev.escaped = "none", <<"panic escaped a bundled recovery option", Ev.kind, Ev.method, Ev.path, Ev.faults, Ev.escaped>>)
+        /\ Check("C16", fired => Ev.status = Ev.code, <<"recovery status", Ev.kind, Ev.code, Ev.status>>)
+        /\ Check("C16", (fired /\ Ev.kind # "status") => Ev.outlen > 0, <<"nothing written to the recovery output", Ev.kind>>)
+        /\ Check("C16", (~fired /\ Ev.kind # "status") => Ev.outlen = 0, <<"recovery output without a panic", Ev.kind>>)
+        /\ Check("C16", Ev.later.kind = "route" /\ Ev.later.status = 200 /\ Ev.later.escaped = "none", <<"request after a recovered panic", Ev.later>>)
 Next == /\ l <= Len(Trace) /\ l' = l + 1
-        /\ (TrReset \/ TrOp \/ TrServe \/ TrObserve)
+        /\ (TrReset \/ TrOp \/ TrServe \/ TrObserve \/ TrRecHelper)
         /\ (l' > Len(Trace) => PrintT("TRACE-END " \o ToString(Len(Trace))))
 Spec == Init /\ [][Next]_vars
 =============================================================================
